@@ -49,7 +49,23 @@ def run(p: Program, rep: Report, tier: str) -> None:
                 fed += list(e.b or ())
         has_m = any(contains(x, ("attr", SR, "st_mtime")) or contains(x, ("attr", SR, "st_mtime_ns")) for x in fed)
         has_s = any(contains(x, ("attr", SR, "st_size")) for x in fed)
-        if has_m and has_s:
+        # ... and depends on them LOSSLESSLY: a float mtime rendered with a precision-limiting format / truncated to int no
+        # longer distinguishes modifications that str()/repr() (round-trip exact) does
+        lossy = None
+        for x in fed:
+            for t in subterms(x):
+                if t[0] == "fmt" and t[3] and contains(t[1], ("attr", SR, "st_mtime")):
+                    lossy = f"format spec {t[3]!r}"
+                elif t[0] == "call" and t[1] in (("builtin", "int"), ("builtin", "round"), ("ext", "math.floor"), ("ext", "math.trunc")) and t[2] and contains(t[2][0], ("attr", SR, "st_mtime")):
+                    lossy = f"{t[1][1]}()"
+                elif t[0] == "binop" and t[1] == "Mod" and t[2][0] == "const" and isinstance(t[2][1], str) and contains(t[3], ("attr", SR, "st_mtime")) \
+                        and any(d in t[2][1] for d in ("%d", "%i", "%f", "%g", "%e", "%.", "%x")):
+                    lossy = f"%-format {t[2][1]!r}"
+        if has_m and has_s and lossy:
+            rep.violation("R14.1", construct(ge, text=f"etag input: st_mtime through {lossy}"), where(ge),
+                          f"the ETag is computed from st_mtime rendered through {lossy}: the modification time loses precision (e.g. '{{:g}}' keeps 6 significant digits - every "
+                          "present-day mtime renders alike), so a rewrite that keeps the size keeps the validator (stale 304)")
+        elif has_m and has_s:
             rep.ok("R14.1", f"ETag depends on st_mtime and st_size: {show(v)[:90]}")
         else:
             missing = [n for n, h in (("st_mtime", has_m), ("st_size", has_s)) if not h]
@@ -387,6 +403,7 @@ def run(p: Program, rep: Report, tier: str) -> None:
             rep.violation("R14.5", construct(f_, text="second 304 producer"), where(f_, n), f"{f_.fq} answers 304 by itself: 'not modified' is decided outside file_response, without the ETag / change-time "
                           "validators of the file's current stat (a replacement that keeps the mtime second revalidates although the content changed)")
     rep.require_instances("R14.5", 4)
+    _validators_written_once(p, rep)
 
 
 _SF_MODULES = ("baize.staticfiles", "baize.wsgi.staticfiles", "baize.asgi.staticfiles")
@@ -417,3 +434,45 @@ def _header_derived(v: ast.expr, call: FuncInfo, side: str) -> bool:
         if isinstance(x, ast.Name) and (x.id == gate or x.id in loopvars):
             return True
     return False
+
+
+def _validators_written_once(p: Program, rep: Report) -> None:
+    """R14.6 (who-may-write): the validators a full response carries (ETag, Last-Modified) are put into its headers by
+    generate_common_headers and are not removed or replaced anywhere else in the package. Code that pops / deletes / overwrites
+    them afterwards (for a cache policy, a "no-store" mode ...) sends a 200 without - or with other - validators: the ETag of a
+    200 can then not revalidate, and a modified file is not announced with new validators."""
+    VAL = ("etag", "last-modified")
+    writer = p.cls("baize.responses:FileResponseMixin").methods.get("generate_common_headers")
+
+    def is_val(n) -> bool:
+        return isinstance(n, ast.Constant) and isinstance(n.value, (str, bytes)) and (n.value.lower() if isinstance(n.value, str) else n.value.lower().decode("latin-1")) in VAL
+
+    n_scanned = 0
+    hit = False
+    for fn in p.all_functions():
+        if writer is not None and (fn is writer):
+            continue
+        n_scanned += 1
+        # names bound to a validator header name by a loop over a literal tuple/list that contains one
+        loopvars = set()
+        for n in ast.walk(fn.node):
+            if isinstance(n, (ast.For, ast.comprehension)) and isinstance(n.target, ast.Name) and isinstance(n.iter, (ast.Tuple, ast.List, ast.Set)) and any(is_val(x) for x in n.iter.elts):
+                loopvars.add(n.target.id)
+
+        def names_validator(e) -> bool:
+            return is_val(e) or (isinstance(e, ast.Name) and e.id in loopvars)
+
+        for n in ast.walk(fn.node):
+            what = None
+            if isinstance(n, ast.Subscript) and isinstance(n.ctx, (ast.Store, ast.Del)) and names_validator(n.slice):
+                what = ("del " if isinstance(n.ctx, ast.Del) else "") + ast.unparse(n)[:50] + ("" if isinstance(n.ctx, ast.Del) else " = ...")
+            elif isinstance(n, ast.Call) and isinstance(n.func, ast.Attribute) and n.func.attr in ("pop", "__delitem__", "__setitem__", "setdefault") and n.args and names_validator(n.args[0]):
+                what = ast.unparse(n)[:60]
+            if what:
+                hit = True
+                rep.violation("R14.6", construct(fn, text=f"validator header changed: {what}"), where(fn, n),
+                              f"{fn.fq} removes or replaces a validator header of a response ({what}): a full response then goes out without (or with other) ETag / Last-Modified than "
+                              "generate_common_headers computed from the file's stat - it cannot be revalidated, and a modification is not announced with the new validators")
+    if not hit:
+        rep.ok("R14.6", f"ETag / Last-Modified are written by generate_common_headers only: no other function of the package ({n_scanned} scanned) pops, deletes or stores them")
+    rep.require_instances("R14.6", 1)
